@@ -12,6 +12,7 @@ import (
 )
 
 type Env struct {
+	assume   bool // the formula is being assumed (polarity of quantifier typing facts)
 	macros   []Macro
 	c        *FnCtx
 	st       *State
@@ -54,6 +55,19 @@ func (env *Env) with(name string, v Val) *Env {
 		n.vars[k] = x
 	}
 	n.vars[name] = v
+	return &n
+}
+
+// evalAssume evaluates a formula that will be assumed (not proved).
+func (env *Env) evalAssume(e *Expr) (string, error) {
+	n := *env
+	n.assume = true
+	return n.evalBool(e)
+}
+
+func (env *Env) flip() *Env {
+	n := *env
+	n.assume = !env.assume
 	return &n
 }
 
@@ -294,20 +308,22 @@ func (env *Env) eval(e *Expr) Val {
 		}
 		fail("%s: unknown identifier %q", e.Pos, e.Name)
 	case "un":
-		x := env.eval(e.Args[0])
 		if e.Name == "!" {
+			x := env.flip().eval(e.Args[0])
 			if x.K != KBool {
 				fail("%s: ! of non-bool", e.Pos)
 			}
 			return mkBool(sNot(x.T))
 		}
+		x := env.eval(e.Args[0])
 		return mkInt("(- "+x.T+")", nil)
 	case "bin":
 		return env.evalBin(e)
 	case "forall", "exists":
 		n := env
 		var bs []string
-		var facts []string
+		var facts []string  // typing facts of terms mentioning the bound variables
+		var domain []string // typing of the bound variables themselves: always a guard
 		for _, b := range e.Vars {
 			nm := sym("q." + b.Name)
 			var v Val
@@ -328,7 +344,7 @@ func (env *Env) eval(e *Expr) Val {
 						v = Val{K: kindOf(t), T: nm, Ty: t}
 						bs = append(bs, "("+nm+" Int)")
 						for _, f := range typeFacts(v, "") {
-							facts = append(facts, f)
+							domain = append(domain, f)
 						}
 					case KBool:
 						v = mkBool(nm)
@@ -343,19 +359,43 @@ func (env *Env) eval(e *Expr) Val {
 			n = n.with(b.Name, v)
 		}
 		c.noFacts++
+		c.qfacts = append(c.qfacts, nil)
 		body := func() Val {
 			defer func() { c.noFacts-- }()
 			return n.eval(e.Args[0])
 		}()
+		qf := c.qfacts[len(c.qfacts)-1]
+		c.qfacts = c.qfacts[:len(c.qfacts)-1]
+		{
+			seen := map[string]bool{}
+			for _, f := range qf {
+				if !seen[f] {
+					seen[f] = true
+					facts = append(facts, f)
+				}
+			}
+		}
 		if body.K != KBool {
 			fail("%s: quantifier body not boolean", e.Pos)
 		}
 		bt := body.T
 		if len(facts) > 0 {
-			if e.Op == "forall" {
+			// typing facts of terms that mention the bound variables are valid; they are
+			// hypotheses when the formula is a goal and extra conclusions when it is assumed
+			switch {
+			case e.Op == "forall" && !env.assume:
 				bt = sImp(sAnd(facts...), bt)
-			} else {
+			case e.Op == "forall" && env.assume:
 				bt = sAnd(append(facts, bt)...)
+			case e.Op == "exists" && env.assume:
+				bt = sAnd(append(facts, bt)...)
+			}
+		}
+		if len(domain) > 0 {
+			if e.Op == "forall" {
+				bt = sImp(sAnd(domain...), bt)
+			} else {
+				bt = sAnd(append(domain, bt)...)
 			}
 		}
 		return mkBool("(" + e.Op + " (" + strings.Join(bs, " ") + ") " + bt + ")")
@@ -431,7 +471,12 @@ func (env *Env) evalBin(e *Expr) Val {
 	op := e.Name
 	switch op {
 	case "&&", "||", "==>", "<==>":
-		a := env.eval(e.Args[0])
+		var a Val
+		if op == "==>" {
+			a = env.flip().eval(e.Args[0])
+		} else {
+			a = env.eval(e.Args[0])
+		}
 		b := env.eval(e.Args[1])
 		if a.K != KBool || b.K != KBool {
 			fail("%s: logical operator on non-bool in %s", e.Pos, e.String())
@@ -833,9 +878,13 @@ func (env *Env) evalCall(e *Expr) Val {
 		if x.K != KIface {
 			fail("%s: typeis on non-interface", e.Pos)
 		}
-		t := env.resolveType(e.Args[1].String())
+		tn := e.Args[1].String()
+		if e.Args[1].Op == "str" {
+			tn = e.Args[1].Name
+		}
+		t := env.resolveType(tn)
 		if t == nil {
-			fail("%s: unknown type %s", e.Pos, e.Args[1].String())
+			fail("%s: unknown type %s", e.Pos, tn)
 		}
 		return mkBool("(= " + x.Fs[0].T + " " + smtInt(int64(c.eng.typeID(t))) + ")")
 	case "iface":
@@ -865,6 +914,42 @@ func (env *Env) evalCall(e *Expr) Val {
 		fail("%s: haskey on non-map", e.Pos)
 	case "keyof":
 		return mkInt(c.keyTerm(env.eval(e.Args[0])), nil)
+	case "visited":
+		v, ok := env.vars["$visited"]
+		if !ok {
+			fail("%s: visited() is only available in invariants of a loop ranging over a map", e.Pos)
+		}
+		return mkBool("(select " + v.T + " " + env.asKey(env.eval(e.Args[0])) + ")")
+	case "inv":
+		// inv(obj [, "-label" ...]): the conjunction of the invariant clauses of obj's type
+		obj := env.eval(e.Args[0])
+		ts := c.typeSpecOf(obj.Ty)
+		if ts == nil {
+			fail("%s: inv(): no invariant declared for %v", e.Pos, obj.Ty)
+		}
+		except := map[string]bool{}
+		for _, a := range e.Args[1:] {
+			if a.Op == "str" {
+				except[strings.TrimPrefix(a.Name, "-")] = true
+			}
+		}
+		var parts []string
+		for _, iv := range ts.Invariants {
+			if except[iv.Label] {
+				continue
+			}
+			v := env.with("self", obj).eval(iv.E)
+			parts = append(parts, v.T)
+		}
+		return mkBool(sAnd(parts...))
+	case "ptr":
+		// ptr(T, x): the integer x viewed as a *T
+		t := env.resolveType(e.Args[0].String())
+		if t == nil {
+			fail("%s: unknown type %s", e.Pos, e.Args[0].String())
+		}
+		x := env.eval(e.Args[1])
+		return mkRef(oneTerm(x, e), types.NewPointer(t))
 	case "arrof":
 		x := env.eval(e.Args[0])
 		if x.K != KSlice {
